@@ -98,6 +98,8 @@ def check_ucr_shard(args):
             w = small_match(cps, k, cp, icase=(k == 'lit'))
             if got[0] != w[0] or (w[0] == 0 and got[1:] != w[1:]):
                 bad.append(('regex-decoder:%s' % k, 'U+%04X pattern kind %s on x<ch>y: got %s expected %s' % (cp, k, got, w), {'cp': cp, 'kind': k}))
+        if len(f) > 18 and f[18] != '-:-:-' and not f[18].startswith('-1:'):
+            bad.append(('regex-decoder:fold', 'U+%04X: the pattern %r+ (ignoring case) matches inside "<%s>": %s (case folding looked at the low byte of the code point)' % (cp, chr(cp & 0xff).lower(), chr(cp), f[18]), {'cp': cp, 'kind': 'fold'}))
     if rep:
         bad.append((rep, 'sanitizer/crash in probe ucr %x..%x: %s' % (lo, hi, r.err[-600:].decode('latin-1')), {'cmd': 'ucr %d %d' % (lo, hi)}))
     elif r.timed_out:
